@@ -97,6 +97,11 @@ CHECKS = {
                      "range: z3 decides per path cell (query point free) that the constructed object, the operator-built object and the Boolean combination of the member regions "
                      "coincide, complement, == both ways, kinds, identical area/moments; DisjointShape([S]) unshared copy, empty lists Empty.",
                 technique="symbolic execution of the real code (SYMX) + z3 per path cell"),
+    "C12": dict(level="model_checking", design="4/C12",
+                text="T(A) op T(B) under SYMX with the similarity parameter symbolic (uniform scale s in [1e-3, 1e5]; common translation up to 1e6; operands also rotated by exact "
+                     "Pythagorean angles): on every path cell z3 decides, with the query point free, that the result mapped back by T^-1 denotes A op B (independent oracle on the "
+                     "concrete operands), that kind is that of the identity run and area = s^2 * area; T(p) in T(S) <=> p in S with symbolic p.",
+                technique="symbolic execution of the real code (SYMX) with a symbolic similarity parameter + z3 per path cell"),
 }
 NA = {}
 
